@@ -54,6 +54,21 @@ def written_roles(an, cm, roles):
     return w
 
 
+def fresh_slots(e, roles):
+    """m_elements = vector<element>(m_elements.size()/capacity()): every slot back to its default-constructed
+    state, which is what the constructor leaves (slot contents are dead storage while the container is empty)"""
+    if e.kind != 'OTHER_WR' or e.field != getattr(roles, 'slots', None):
+        return False
+    v = e.val
+    if not (isinstance(v, tuple) and v and v[0] == 'ctor' and 'vector<' in str(v[1]) and len(v[2]) in (1, 2)):
+        return False
+    n = v[2][0]
+    if len(v[2]) == 2 and v[2][1] != ('default',):
+        return False
+    return (isinstance(n, tuple) and n[0] == 'q' and n[1] in ('size', 'capacity')
+            and n[2] == ('fld', ('this',), roles.slots))
+
+
 def rule_c20(an, res):
     prop = 'C20'
     for cm, roles in an.classes(['utlru_cache', 'ut_map']):
@@ -91,7 +106,7 @@ def rule_c20(an, res):
                       first_site(effs, top, m), 'clear() path [%s]: %s (this state is modified e.g. at %s)' % (val, why, show_site(wit.site)))
             # nothing else
             allowed = ('CNT', 'PART', 'INDEX_OP', 'AUX_OP', 'IOTA', 'RANGE_WR')
-            extra = [e for e in effs if e.kind not in allowed]
+            extra = [e for e in effs if e.kind not in allowed and not fresh_slots(e, roles)]
             res.ob('R-RESET-ONLY', ok=not extra)
             if extra:
                 V(res, prop, 'R-RESET-ONLY', cm, m.key(), 'clear() does more than resetting: %s' % extra[0].kind, extra[0].site, repr(extra[0]))
